@@ -823,7 +823,7 @@ func ruleC11Rest(c *Checker) {
 		c.decide(okk, "SIDFRESH", "DoHandshake|SetRemote for version >= 2", dh.Pos(), "both parties publish the remote static key when the negotiated version is >= 2", "the remote key is not published exactly for version >= 2: the two sides move to different rendezvous points")
 	}
 	c.floor("EXCL", 8)
-	c.floor("SIDFRESH", 13)
+	c.floor("SIDFRESH", 20)
 	c.floor("FRESH", 18)
 }
 
@@ -1236,6 +1236,44 @@ func isMakeChan(v ssa.Value) bool { _, ok := v.(*ssa.MakeChan); return ok }
 // sides (shared by C11 and C17).
 func ruleRemoteKey(c *Checker) {
 	w := c.w
+	// who may write the state that selects the rendezvous: the remote key (constructor and SetRemote),
+	// the remembered SID and the current connection (Accept / Dial only)
+	for _, wr := range []struct {
+		field   string
+		writers []string
+	}{
+		{"mailbox.ConnData.remoteKey", []string{"mailbox.NewConnData", "(*mailbox.ConnData).SetRemote"}},
+		{"mailbox.ConnData.passphraseEntropy", []string{"mailbox.NewConnData"}},
+		{"mailbox.ConnData.localKey", []string{"mailbox.NewConnData"}},
+		{"mailbox.Server.sid", []string{"mailbox.NewServer", "(*mailbox.Server).Accept"}},
+		{"mailbox.Client.sid", []string{"mailbox.NewClient", "(*mailbox.Client).Dial"}},
+		{"mailbox.Server.mailboxConn", []string{"(*mailbox.Server).Accept"}},
+		{"mailbox.Client.mailboxConn", []string{"(*mailbox.Client).Dial"}},
+	} {
+		f := w.Field(wr.field)
+		if f == nil {
+			c.anchorFail(wr.field)
+			continue
+		}
+		bad := ""
+		for _, st := range w.Stores(f) {
+			top := st.Parent()
+			for top.Parent() != nil {
+				top = top.Parent()
+			}
+			okk := false
+			for _, n := range wr.writers {
+				if fnName(top) == n {
+					okk = true
+				}
+			}
+			if !okk {
+				bad = fnName(st.Parent()) + " at " + w.pos(instrPos(st))
+			}
+		}
+		c.decide(bad == "", "SIDFRESH", "writers|"+wr.field, token.NoPos, "written only by "+strings.Join(wr.writers, ", "),
+			wr.field+" is also written by "+bad+": the secret / rendezvous state can change outside the pairing and reconnect logic")
+	}
 	// ConnData.SID and HandshakePattern branch on remoteKey != nil; SetRemote stores it
 	fRK := w.Field("mailbox.ConnData.remoteKey")
 	if fRK == nil {
